@@ -65,7 +65,10 @@ def _self(I, a):
 
 
 for _n in ('help', 'long_help', 'value_name', 'value_parser', 'about', 'version', 'long_about', 'group', 'next_help_heading', 'next_display_order',
-           'num_args', 'hide', 'global', 'help_heading', 'display_order', 'author', 'name', 'bin_name', 'propagate_version', 'arg_required_else_help'):
+           'num_args', 'hide', 'global', 'help_heading', 'display_order', 'author', 'name', 'bin_name', 'propagate_version', 'arg_required_else_help',
+           'hide_default_value', 'hide_possible_values', 'hide_short_help', 'hide_long_help', 'hide_env', 'hide_env_values', 'value_hint', 'after_help', 'before_help',
+           'after_long_help', 'before_long_help', 'override_usage', 'override_help', 'help_template', 'term_width', 'max_term_width', 'color', 'styles',
+           'disable_colored_help', 'next_line_help', 'display_name', 'long_version', 'allow_hyphen_values', 'allow_negative_numbers'):
     EXACT['clap::Arg::' + _n] = _self
     EXACT['clap::Command::' + _n] = _self
 for _n in ('args', 'multiple', 'required', 'id'):
@@ -110,6 +113,15 @@ def _(I, a):
     return a[0]
 
 
+@model('clap::Arg::value_delimiter')
+def _(I, a):
+    d = a[1]
+    if isinstance(d, Enum):   # impl IntoResettable<char>
+        d = None if d.variant in ('None', 'Reset') else d.fields[0]
+    a[0].delimiter = d
+    return a[0]
+
+
 @model('clap::Arg::required')
 def _(I, a):
     a[0].required = bool(a[1])
@@ -149,6 +161,22 @@ def _(I, a):
         if arg.action in ('SetTrue', 'SetFalse'):
             m.vals[arg.id] = [bool(sup) if arg.action == 'SetTrue' else not bool(sup)]
         elif sup is not None:
+            delim = getattr(arg, 'delimiter', None)
+            if delim is not None:
+                # clap splits every supplied value at the delimiter character
+                if arg.action != 'Append' or is_sym(delim) or delim > 127:
+                    raise Unsupported('value_delimiter outside the modelled cases')
+                parts = []
+                for v in sup:
+                    cur = []
+                    for b in v:
+                        if I.branch(models.b_eq(b, delim)):
+                            parts.append(cur)
+                            cur = []
+                        else:
+                            cur.append(b)
+                    parts.append(cur)
+                sup = parts
             vals = [StringObj(list(v)) for v in sup]
             m.vals[arg.id] = vals if arg.action == 'Append' else vals[-1:]
         elif arg.default is not None:
